@@ -54,6 +54,9 @@ StaticValues(c, H) ==
 
 TempValues(c, S) ==
   [times  |-> SnapTimes(S),
+   alive  |-> UNION {EdgesAt(S, tm) : tm \in SnapTimes(S)},
+   touched |-> UNION UNION {EdgesAt(S, tm) : tm \in SnapTimes(S)},
+   nodes  |-> S.nodes,
    by_s   |-> {[s |-> s, betw |-> Graph(AvgSBetweenness(S, s)), close |-> Graph(AvgSCloseness(S, s))] : s \in Rng(c.ss)},
    nbetw  |-> IF c.nodes THEN Graph(AvgNodeBetweenness(S, FALSE)) ELSE {},
    nclose |-> IF c.nodes THEN Graph(AvgNodeCloseness(S, FALSE)) ELSE {},
